@@ -12,6 +12,7 @@ from ..core import AnalysisError, attr_chain, cshort, kwarg, short, walk_no_nest
 from ..effects import MUTATING_BUILTIN
 from . import nameres
 from .joinrules import content_writes
+from ..symx import subterms as _subterms
 
 
 def run(ctx) -> None:
@@ -357,12 +358,29 @@ def _vector(ctx) -> None:
 def _is_cell_value(val, cells) -> bool:
     """the value component of a sort key: the cell itself, or - on any path - the cell widened to midnight
     (datetime.combine(cell, <midnight>): the order-preserving date -> datetime widening; a <datetime> column may hold plain dates)"""
+    return _is_cell_value_under(val, cells, ())
+
+
+def _is_cell_value_under(val, cells, conds) -> bool:
     if val in cells:
         return True
     if val[0] == "ifexp":
-        return _is_cell_value(val[2], cells) and _is_cell_value(val[3], cells)
+        return _is_cell_value_under(val[2], cells, conds + ((val[1], True),)) and _is_cell_value_under(val[3], cells, conds + ((val[1], False),))
     if val[0] == "call" and val[1] == ("attr", ("name", "datetime"), "combine") and len(val[2]) == 2 and not val[3]:
-        return val[2][0] in cells
+        cell = val[2][0]
+        if cell not in cells:
+            return False
+        # widening replaces the time of day by midnight: order-preserving for a plain date only - where it is conditional, the
+        # condition must keep every datetime (subclasses included: `type(x) is datetime` lets a subclass instance through and its
+        # cells of one day would all tie) out of this branch
+        if not conds:
+            return True                       # (unconditional: the caller decides from the column's dtype)
+        for c, pol in conds:
+            c_, pol_ = (c[2], not pol) if (c[0] == "un" and c[1] == "Not") else (c, pol)
+            if c_[0] == "call" and c_[1] == ("name", "isinstance") and len(c_[2]) == 2 and c_[2][0] == cell and not pol_ \
+                    and any(y == ("name", "datetime") for y in _subterms(c_[2][1])):
+                return True
+        return False
     return False
 
 
